@@ -1,0 +1,46 @@
+//go:build verif
+
+// Package verifhook provides named schedule/crash points for the external
+// verification harness under /verif. With the "verif" build tag a handler can
+// be installed; without the tag every function is an empty inlinable body.
+package verifhook
+
+import (
+	"io"
+	"sync/atomic"
+)
+
+// Enabled reports whether hooks are compiled in.
+const Enabled = true
+
+type handlers struct {
+	point  func(name string)
+	reader func(name string, r io.Reader) io.Reader
+}
+
+var h atomic.Pointer[handlers]
+
+// SetHandlers installs the point and reader handlers (nil clears them).
+func SetHandlers(point func(name string), reader func(name string, r io.Reader) io.Reader) {
+	if point == nil && reader == nil {
+		h.Store(nil)
+		return
+	}
+	h.Store(&handlers{point: point, reader: reader})
+}
+
+// Point is called at a named point between two steps of an operation.
+func Point(name string) {
+	if hs := h.Load(); hs != nil && hs.point != nil {
+		hs.point(name)
+	}
+}
+
+// WrapReader lets the handler interpose on a reader that is about to be
+// copied (e.g. to die after k bytes).
+func WrapReader(name string, r io.Reader) io.Reader {
+	if hs := h.Load(); hs != nil && hs.reader != nil {
+		return hs.reader(name, r)
+	}
+	return r
+}
